@@ -189,6 +189,7 @@ def catalogue():
          fn(i32, cref(s), i32), fn(None, cref(vector(i32))), fn(i32, cref(i32), cref(s)),
          carray(carray(i32, 3), 2), carray(carray(i32, 4), 2), array(carray(i32, 3), 2), array(carray(i32, 4), 2), array(array(i32, 3), 2),
          vector(array(i32, 3)), vector(vector(i32)), tup(cref(array(i32, 3)), cref(array(i32, 3))), tup(cref(vector(i32)), cref(vector(i32))),
+         carray(array(f32, 2), 2), carray(vector(f32), 2), carray(array(f32, 2), 3), carray(vector(f32), 1),
          tup(carray(i32, 3)), tup(carray(i32, 4)), tup(array(i32, 3)), pair(carray(i32, 3), i32), pair(carray(i32, 4), i32), pair(array(i32, 3), i32),
          tup(vector(i32), f32), tup(array(i32, 3), f32), pair(vector(i32), f32), tup(wi, s), array(tup(i32, s), 2), vector(pair(wi, s))]
     return c
